@@ -152,6 +152,9 @@ def parse_spec(path):
         elif d == '@define':
             comp.defines.append(parts[1])
             i += 1
+        elif d == '@extract_define':
+            comp.extract_defines = getattr(comp, 'extract_defines', []) + [parts[1]]
+            i += 1
         elif d == '@nocheck':
             comp.nochecks = getattr(comp, 'nochecks', []) + [parts[1]]
             i += 1
